@@ -221,3 +221,105 @@ class LL2XY(Spec):
 
 
 SAMPLE2D_UNITS = [Sample2D(False, False), Sample2D(False, True), Sample2D(True, False), Sample2D(True, True), XY2LL(), LL2XY()]
+
+
+class BilinInvStep(Spec):
+    """One iteration of bilin_inv's loop (verified as a slice: the loop body):
+    the cell of the current estimate is kept inside the arrays, and the update is the exact Newton step of the
+    bilinear system of that cell:  Fx*dx + Fy*dy == Fs - f,  Gx*dx + Gy*dy == Gs - g  with (dx, dy) = old - new.
+    For arrays that are affine in the indices one step lands on the exact solution."""
+
+    func = "ladim.sample.bilin_inv"
+    name = "sample.bilin_inv[one Newton iteration]"
+    properties = ("C16", "C17")
+    inline = ()
+
+    def body_slice(self, node):
+        import ast
+
+        loops = [st for st in node.body if isinstance(st, ast.For)]
+        if len(loops) != 1:
+            return None
+        return loops[0].body, f"the loop body, lines {loops[0].body[0].lineno}-{loops[0].end_lineno} (one iteration from an arbitrary estimate; set-up and the fixed iteration count are not part of the claim)"
+
+    def inputs(self, cx):
+        n = N(cx)
+        imax, jmax = z3.Ints("imax jmax")
+        cx.assume(z3.And(imax >= 2, jmax >= 2))
+        a = Args(f=sym_array("f", (n,), "real"), g=sym_array("g", (n,), "real"), F=sym_array("F", (imax, jmax), "real"), G=sym_array("G", (imax, jmax), "real"))
+        a._x0, a._y0 = sym_array("x_est", (n,), "real"), sym_array("y_est", (n,), "real")
+        a._env = dict(f=a.f, g=a.g, F=a.F, G=a.G, imax=imax, jmax=jmax, x=sym_array("x_est", (n,), "real"), y=sym_array("y_est", (n,), "real"), tol=z3.Real("tol"), maxiter=7)
+        return a
+
+    def slice_env(self, cx, a):
+        return a._env
+
+    def call_args(self, a):
+        return [a.f, a.g, a.F, a.G], {}
+
+    def model(self, cx, a):
+        return NotImplemented
+
+    def ensures(self, cx, a, result):
+        env = a._env
+        n = a.f.shape[0]
+        x1, y1 = env["x"], env["y"]
+        x0, y0 = a._x0.fn, a._y0.fn
+        F, G, f, g = a.F.fn, a.G.fn, a.f.fn, a.g.fn
+        imax, jmax = z3.Ints("imax jmax")
+        if result == "<break>":
+            # converged: the estimate is returned unchanged
+            return [("C16: on convergence the estimate is left as it is", ForallP(n, lambda p: z3.And(x1.fn(p) == x0(p), y1.fn(p) == y0(p))))]
+
+        def cell(p):
+            i = V.s_trunc(x0(p))
+            j = V.s_trunc(y0(p))
+            i = z3.If(i < 0, 0, z3.If(i > imax - 2, imax - 2, i))
+            j = z3.If(j < 0, 0, z3.If(j > jmax - 2, jmax - 2, j))
+            return i, j
+
+        def newton(p):
+            i, j = cell(p)
+            pp, qq = x0(p) - z3.ToReal(i), y0(p) - z3.ToReal(j)
+
+            def bil(A):
+                return (1 - pp) * (1 - qq) * A(i, j) + pp * (1 - qq) * A(i + 1, j) + (1 - pp) * qq * A(i, j + 1) + pp * qq * A(i + 1, j + 1)
+
+            def ddx(A):
+                return (1 - qq) * (A(i + 1, j) - A(i, j)) + qq * (A(i + 1, j + 1) - A(i, j + 1))
+
+            def ddy(A):
+                return (1 - pp) * (A(i, j + 1) - A(i, j)) + pp * (A(i + 1, j + 1) - A(i + 1, j))
+
+            return dict(Fs=bil(F), Gs=bil(G), Fx=ddx(F), Fy=ddy(F), Gx=ddx(G), Gy=ddy(G))
+
+        names = ("Fs", "Gs", "Fx", "Fy", "Gx", "Gy")
+        ok_env = all(isinstance(env.get(k), Arr) for k in names + ("det",))
+        if not ok_env:
+            return [("C16: the iteration computes the bilinear estimates Fs, Gs, the Jacobian Fx, Fy, Gx, Gy and det", False)]
+
+        def quantity(k):
+            return lambda p: env[k].fn(p) == newton(p)[k]
+
+        def detq(p):
+            return env["det"].fn(p) == env["Fx"].fn(p) * env["Gy"].fn(p) - env["Fy"].fn(p) * env["Gx"].fn(p)
+
+        def step(p):
+            # generalisation: the code's Fs, ..., det are replaced by arbitrary reals (sound: proves more), which leaves
+            # the 2x2 Newton algebra for the solver
+            gen = {k: z3.Real(f"gen_{k}") for k in names + ("det",)}
+            subs = [(env[k].fn(p), gen[k]) for k in ("det",) + names]
+            xs = z3.substitute(V.to_z3(x1.fn(p)), *subs)
+            ys = z3.substitute(V.to_z3(y1.fn(p)), *subs)
+            dx, dy = x0(p) - xs, y0(p) - ys
+            hyp = z3.And(gen["det"] != 0, gen["det"] == gen["Fx"] * gen["Gy"] - gen["Fy"] * gen["Gx"])
+            return z3.Implies(hyp, z3.And(gen["Fx"] * dx + gen["Fy"] * dy == gen["Fs"] - f(p), gen["Gx"] * dx + gen["Gy"] * dy == gen["Gs"] - g(p)))
+
+        return [
+            *[(f"C16: {k} is the {'bilinear estimate' if k in ('Fs', 'Gs') else 'Jacobian entry'} of the (clipped) cell of the current estimate", ForallP(n, quantity(k))) for k in names],
+            ("C16: det is the determinant of that Jacobian", ForallP(n, detq)),
+            ("C16: the update is the exact Newton step: J*(old - new) == residual (for every value of the estimates and a non-singular Jacobian)", ForallP(n, step)),
+        ]
+
+
+SAMPLE2D_UNITS.append(BilinInvStep())
